@@ -35,8 +35,9 @@ Definition s_count : str := lit "count".
 
 (* quarter-unit "floats": fle = f64 <=, fadd = f64 + (exact on this domain) *)
 Definition ZF : H.FloatOps :=
-  {| H.F := Z; H.fle := Z.leb; H.fadd := Z.add; H.fzero := 0%Z; H.fpinf := 0%Z; H.fninf := 0%Z;
-     H.fisinf := fun _ => false; H.fwithin := fun _ _ _ => true; H.fsame := Z.eqb |}.
+  {| H.F := Z; H.fle := Z.leb; H.fadd := Z.add; H.fzero := 0%Z; H.fone := 4%Z; H.fpinf := 0%Z; H.fninf := 0%Z;
+     H.fisinf := fun _ => false; H.fwithin := fun _ _ _ => true; H.fsame := Z.eqb;
+     H.fclamp01 := fun x => Z.max 0 (Z.min 4 x) |}.
 
 Inductive mkind := KC | KG | KR | KH.      (* counter, gauge, raw-bits gauge, histogram *)
 Definition mkind_eqb (a b : mkind) : bool :=
